@@ -186,6 +186,9 @@ def _render_cmd(m, kind, name, dl, v, n, tag, i, indent):
         args = [(ID, cname)]
         if v & 1:
             args.append((ID, "BaseOf" + cname))
+            if v & 4:
+                args.append((ID, "Mixin" + cname))
+                args.append((ID, "Another" + cname))
         _cmd(m, indent, "cpp_class", args)
         for a in range(n % 3):
             if v & 2:
